@@ -13,6 +13,13 @@
 #include "momo/Array.h"
 #include "momo/HashSet.h"
 #include "momo/TreeSet.h"
+#include "momo/MemPool.h"
+#include "momo/SegmentedArray.h"
+// compiled twice to keep each compilation short: -DC03_TIE_PART=1 (om/arr/hs/ts/crew) and =2 (dt/hmm)
+#if !defined(C03_TIE_PART) || C03_TIE_PART == 2
+#include "momo/HashMultiMap.h"
+#include "momo/DataTable.h"
+#endif
 using namespace momo;
 typedef unsigned long long ull;
 
@@ -20,20 +27,23 @@ struct PlainHash { template<class T> size_t operator()(const T& t) const { retur
 struct PlainEq { template<class A, class B> bool operator()(const A& a, const B& b) const { return a.Value() == b.Value(); } };
 struct PlainLess { template<class A, class B> bool operator()(const A& a, const B& b) const { return a.Value() < b.Value(); } };
 
-static std::string canon(bool sizes, bool sortX)
+static std::string canon(bool sizes, bool sortX, bool blocks = true, bool sortD = false)
 {
 	kit::World& w = kit::W();
 	std::map<ull, ull> os, bs;
 	auto O = [&](ull x) { auto it = os.find(x); if (it != os.end()) return it->second; ull n = os.size(); return os[x] = n; };
 	auto B = [&](ull x) { auto it = bs.find(x); if (it != bs.end()) return it->second; ull n = bs.size(); return bs[x] = n; };
 	std::vector<std::string> toks;
-	std::vector<ull> xrun;
+	std::vector<ull> xrun, drun;
+	auto flushD = [&]() { std::sort(drun.begin(), drun.end()); for (ull x : drun) toks.push_back("D" + std::to_string(x)); drun.clear(); };
 	auto flush = [&]() { if (sortX) std::sort(xrun.begin(), xrun.end()); for (ull x : xrun) toks.push_back("X" + std::to_string(x)); xrun.clear(); };
 	for (auto& e : w.elog)
 	{
 		if (e.kind == 'U') continue;
 		if (e.kind == 'X') { xrun.push_back(O(e.a)); continue; }
-		flush();
+		if ((e.kind == 'A' || e.kind == 'D') && !blocks) continue;
+		if (e.kind == 'D' && sortD) { flush(); drun.push_back(B(e.b)); continue; }
+		flush(); flushD();
 		switch (e.kind)
 		{
 		case 'N': toks.push_back("N" + std::to_string(O(e.a))); break;
@@ -44,7 +54,7 @@ static std::string canon(bool sizes, bool sortX)
 		case 'F': toks.push_back("F"); break;
 		}
 	}
-	flush();
+	flush(); flushD();
 	std::string r;
 	for (auto& t : toks) r += " " + t;
 	return r;
@@ -53,6 +63,7 @@ static std::string canon(bool sizes, bool sortX)
 static void window_begin(long k) { kit::World& w = kit::W(); w.elog_reset(); w.elogging = true; w.arm_step(k); }
 static void window_end() { kit::World& w = kit::W(); w.disarm(); w.elogging = false; }
 
+#if !defined(C03_TIE_PART) || C03_TIE_PART == 1
 template<class E> static void run_om(const std::string& mech, size_t count, long k)
 {
 	typedef internal::ObjectManager<E, kit::MM> OM;
@@ -143,6 +154,167 @@ template<class E> static void run_ts(size_t n, long k)
 	printf("%s%s", thrown ? "exc" : "val", canon(false, true).c_str());
 }
 
+// crews / node params: { TS dst; { TS src; src gets items; src.MergeTo(dst); } dst gets more items; }
+static void run_crew(size_t k, size_t m, long fail)
+{
+	typedef TreeSet<int, TreeTraits<int>, kit::MM> TS;
+	bool thrown = false;
+	window_begin(fail);
+	try
+	{
+		TS dst(TS::TreeTraits(), kit::MM(1));
+		{
+			TS src(TS::TreeTraits(), kit::MM(1));
+			for (size_t i = 0; i < k * 3; ++i) src.Insert(int(i));          // k = 1: one leaf node (capacity 4)
+			src.MergeTo(dst);
+		}
+		for (size_t i = 0; i < m * 40; ++i) dst.Insert(int(100 + i));            // m = 1: the leaf outgrows its pool: one more buffer
+		kit::W().disarm();
+	}
+	catch (const std::exception&) { thrown = true; }
+	window_end();
+	printf("%s%s", thrown ? "exc" : "val", canon(false, false, true, true).c_str());
+}
+
+// two pools with 2 blocks per buffer: A takes a buffers, B takes b buffers, A.MergeFrom(B), everything is returned
+static void run_pools(size_t a, size_t b, long fail)
+{
+	typedef MemPool<MemPoolParams<2, 0>, kit::MM> Pool;
+	bool thrown = false;
+	window_begin(fail);
+	{
+		Pool A(MemPoolParams<2, 0>(24), kit::MM(1));
+		std::vector<void*> ba, bb;
+		{
+			Pool B(MemPoolParams<2, 0>(24), kit::MM(1));
+			bool merged = false;
+			try
+			{
+				// take blocks until the pool has asked the memory manager for exactly a (resp. b) buffers
+				uint64_t base = kit::W().steps_any;
+				while (kit::W().steps_any - base < a) ba.push_back(A.Allocate<void>());
+				base = kit::W().steps_any;
+				while (kit::W().steps_any - base < b) bb.push_back(B.Allocate<void>());
+				A.MergeFrom(B); merged = true;
+			}
+			catch (const std::exception&) { thrown = true; }
+			kit::W().disarm();
+			if (!merged) for (void* p : bb) B.Deallocate(p); else for (void* p : bb) A.Deallocate(p);
+		}
+		for (void* p : ba) A.Deallocate(p);
+	}
+	window_end();
+	printf("%s%s", thrown ? "exc" : "val", canon(false, false, true, true).c_str());
+}
+
+// TreeSet copy constructor on a two-level tree (TreeNode<4,2>: 3c-1 ascending keys give a root with c-1 items and c leaves of
+// 2 items), the j-th element copy failing
+static void run_ts2(size_t c, long j)
+{
+	typedef kit::ElemNtm E;
+	typedef TreeSet<E, TreeTraitsStd<E, PlainLess, false, TreeNode<4, 2>>, kit::MM> TS;
+	bool thrown = false;
+	{
+		TS src(TS::TreeTraits(), kit::MM(1));
+		for (size_t i = 0; i < 3 * c - 1; ++i) src.Insert(E(int64_t(100 + i)));
+		if (src.mRootNode->IsLeaf() || src.mRootNode->GetCount() != c - 1) { printf("bad-shape"); return; }
+		kit::W().elog_reset(); kit::W().elogging = true; kit::W().arm(-1, j, -1);
+		try { TS copy(src, kit::MM(1)); kit::W().disarm(); }
+		catch (const std::exception&) { thrown = true; }
+		window_end();
+	}
+	printf("%s%s", thrown ? "exc" : "val", canon(false, true, false).c_str());
+}
+// SegmentedArray(begin, end, memManager) with 4 items per segment, the c-th element copy failing; then the destructors
+static void run_sa(size_t n, long c)
+{
+	typedef kit::ElemNtm E;
+	typedef SegmentedArray<E, kit::MM, SegmentedArrayItemTraits<E, kit::MM>,
+		SegmentedArraySettings<SegmentedArrayItemCountFunc::cnst, 2>> SA;
+	bool thrown = false;
+	{
+		std::vector<E> srcv; srcv.reserve(n);
+		for (size_t i = 0; i < n; ++i) srcv.emplace_back(int64_t(100 + i));
+		kit::W().elog_reset(); kit::W().elogging = true; kit::W().arm(-1, c, -1);
+		try { SA a(srcv.begin(), srcv.end(), kit::MM(1)); kit::W().disarm(); }
+		catch (const std::exception&) { thrown = true; }
+		window_end();
+	}
+	printf("%s%s", thrown ? "exc" : "val", canon(false, true, false).c_str());
+}
+
+// HashSet growth: n insertions; prints for every insertion whether a new generation of buckets was created (probe), or
+// (flags given) the sequence of element event KINDS with the c-th element copy failing
+template<class E> static void run_grow(const std::string& flags, size_t n, long c, bool probe)
+{
+	typedef HashSet<E, HashTraitsStd<E, PlainHash, PlainEq, HashBucketOpenDefault>, kit::MM> HS;
+	std::string seen, kinds;
+	{
+		std::vector<E> srcv; srcv.reserve(n);
+		for (size_t i = 0; i < n; ++i) srcv.emplace_back(int64_t(100 + i));
+		kit::W().elog_reset(); kit::W().elogging = true; kit::W().arm(-1, c, -1);
+		{
+			HS hs(typename HS::HashTraits(), kit::MM(1));
+			for (size_t i = 0; i < n; ++i)
+			{
+				void* before = hs.mBuckets;
+				try { hs.Insert(srcv[i]); } catch (const std::exception&) {}
+				seen += (i > 0 && hs.mBuckets != before) ? '1' : '0';
+			}
+			kit::W().disarm();
+		}
+		window_end();
+	}
+	if (probe) { printf("%s", seen.c_str()); return; }
+	if (seen != flags) { printf("bad-shape %s", seen.c_str()); return; }
+	for (auto& e : kit::W().elog) if (e.kind == 'C' || e.kind == 'M' || e.kind == 'X' || e.kind == 'F') { kinds += ' '; kinds += e.kind; }
+	printf("kinds%s", kinds.c_str());
+}
+#endif
+
+#if !defined(C03_TIE_PART) || C03_TIE_PART == 2
+namespace dtt
+{
+	struct Row { kit::ElemNtm a; kit::ElemNtm b; };
+	MOMO_DATA_COLUMN_STRUCT(Row, a);
+	MOMO_DATA_COLUMN_STRUCT(Row, b);
+	typedef DataColumnList<DataColumnTraits<Row>, kit::MM> ColumnList;
+	typedef DataTable<ColumnList> Table;
+}
+// DataTable(const DataTable&) with the c-th element copy failing, then the destructors
+static void run_dt(size_t n, long c)
+{
+	using namespace dtt;
+	bool thrown = false;
+	{
+		ColumnList cl{kit::MM(1)}; cl.Add(a, b);
+		Table t(std::move(cl));
+		for (size_t i = 0; i < n; ++i) { auto r = t.NewRow(); r[a] = kit::ElemNtm(int64_t(10 + i)); r[b] = kit::ElemNtm(int64_t(20 + i)); t.Add(std::move(r)); }
+		kit::W().elog_reset(); kit::W().elogging = true; kit::W().arm(-1, c, -1);
+		try { Table copy(t); kit::W().disarm(); }
+		catch (const std::exception&) { thrown = true; }
+		window_end();
+	}
+	printf("%s%s", thrown ? "exc" : "val", canon(false, true, false).c_str());
+}
+// HashMultiMap(const HashMultiMap&) with n keys of 2 values each, the c-th element copy failing
+static void run_hmm(size_t n, long c)
+{
+	typedef kit::ElemNtm E;
+	typedef HashMultiMap<E, E, HashTraitsStd<E, PlainHash, PlainEq>, kit::MM> HMM;
+	bool thrown = false;
+	{
+		HMM m(HMM::HashTraits(), kit::MM(1));
+		for (size_t i = 0; i < n; ++i) { m.Add(E(int64_t(i)), E(int64_t(100 + i))); m.Add(E(int64_t(i)), E(int64_t(200 + i))); }
+		kit::W().elog_reset(); kit::W().elogging = true; kit::W().arm(-1, c, -1);
+		try { HMM copy(m); kit::W().disarm(); }
+		catch (const std::exception&) { thrown = true; }
+		window_end();
+	}
+	printf("%s%s", thrown ? "exc" : "val", canon(false, true, false).c_str());
+}
+#endif
+
 int main()
 {
 	std::string line;
@@ -150,6 +322,7 @@ int main()
 	{
 		std::istringstream is(line); std::string cmd, a, cat; is >> cmd;
 		kit::W().errors.clear();
+#if !defined(C03_TIE_PART) || C03_TIE_PART == 1
 		if (cmd == "om")
 		{
 			size_t count; long k; is >> a >> cat >> count >> k;
@@ -170,6 +343,23 @@ int main()
 			size_t n; long k; is >> cat >> n >> k;
 			if (cat == "ntm") run_ts<kit::ElemNtm>(n, k); else run_ts<kit::ElemCpo>(n, k);
 		}
+		else if (cmd == "crew") { size_t k, m; long f; is >> k >> m >> f; run_crew(k, m, f); }
+		else if (cmd == "pools") { size_t a2, b2; long f; is >> a2 >> b2 >> f; run_pools(a2, b2, f); }
+		else if (cmd == "ts2") { size_t c; long j; is >> c >> j; run_ts2(c, j); }
+		else if (cmd == "sa") { size_t n; long c; is >> n >> c; run_sa(n, c); }
+		else if (cmd == "growprobe") { size_t n; is >> cat >> n; if (cat == "ntm") run_grow<kit::ElemNtm>("", n, -1, true); else run_grow<kit::ElemCpo>("", n, -1, true); }
+		else if (cmd == "grow")
+		{
+			std::string flags; long c; is >> cat >> flags >> c;
+			if (cat == "ntm") run_grow<kit::ElemNtm>(flags, flags.size(), c, false); else run_grow<kit::ElemCpo>(flags, flags.size(), c, false);
+		}
+		else
+#endif
+		if (false) {}
+#if !defined(C03_TIE_PART) || C03_TIE_PART == 2
+		else if (cmd == "dt") { size_t n; long c; is >> n >> c; run_dt(n, c); }
+		else if (cmd == "hmm") { size_t n; long c; is >> n >> c; run_hmm(n, c); }
+#endif
 		else printf("?");
 		printf(" ! %s\n", kit::summary().c_str());
 		fflush(stdout);
